@@ -11,4 +11,4 @@ Extraction "n2model.ml" canon_impl canon sem ends_dirlike normal_form uses_only 
   replay load_state hash_build siphash13 manifest_stream
   db_open write_build loaded_for signature
   run_phase run_phase_main select_targets bs_new want_targets accepts first_rejected get_state
-  build_tape f_run0 lossy utf8_strict run_task d_run0 printed parse_args summary fs_run fs_listing explain_trace get_cols max_cols.
+  build_tape f_run0 lossy utf8_strict run_task d_run0 printed parse_args summary fs_run fs_listing explain_trace get_cols max_cols path_new lp_parent.
